@@ -146,6 +146,8 @@ type Path struct {
 	mutexes map[*Obj]int
 	assumes []string
 	ndNames map[string]int
+	nrand   int
+	chans   map[int]*chanState
 	decWhere []string
 	expWhere []string
 	journals []*journal
@@ -167,6 +169,11 @@ type Path struct {
 	flags   map[string]bool
 	syncMaps map[string]*MapV
 	atomVals map[string]Value
+}
+
+type chanState struct {
+	cap int
+	buf []Value
 }
 
 type ufApp struct {
@@ -851,7 +858,7 @@ func (e *Engine) newPath(s *Solver, prefix []int) *Path {
 	p := &Path{E: e, S: s, prefix: prefix, names: map[string]int{}, funcs: map[string]bool{}, stubs: map[string]bool{},
 		notes: map[string]bool{}, covers: map[string]bool{}, obs: map[string]string{}, views: map[string]*Obj{}, viewOf: map[*Obj]PtrV{},
 		inOverride: map[*ssa.Function]bool{}, choices: map[string]int{}, ufs: map[string][]ufApp{}, declared: map[string]bool{},
-		mutexes: map[*Obj]int{}, ndNames: map[string]int{}, divCache: map[string]*Term{}, protoBlobs: map[*Obj]protoBlob{}, knownTrue: map[string]bool{}, locks: map[string]int{}, flags: map[string]bool{},
+		mutexes: map[*Obj]int{}, ndNames: map[string]int{}, chans: map[int]*chanState{}, divCache: map[string]*Term{}, protoBlobs: map[*Obj]protoBlob{}, knownTrue: map[string]bool{}, locks: map[string]int{}, flags: map[string]bool{},
 		syncMaps: map[string]*MapV{}, atomVals: map[string]Value{}}
 	p.tb = &TB{}
 	if s != nil {
